@@ -942,10 +942,15 @@ func familyRound(s *hlib.Suite, r *hlib.Rng, n int, thorough bool) {
 			default:
 				k := 1 + r.Intn(4)
 				p2 := r.Perm(len(rtStrings))
-				vals := make([]string, k)
-				for i := range vals {
-					vals[i] = rtStrings[p2[i]]
+				vals := make([]string, 0, k)
+				seenV := map[string]bool{}
+				for i := 0; i < k; i++ { // a declared value list must not repeat a value
+					if !seenV[rtStrings[p2[i]]] {
+						seenV[rtStrings[p2[i]]] = true
+						vals = append(vals, rtStrings[p2[i]])
+					}
 				}
+				k = len(vals)
 				v := make([]*string, nrows)
 				for i := range v {
 					if r.Chance(1, 6) {
